@@ -777,7 +777,10 @@ fn main() {
         let b = &built["colwords"];
         let docs = if thorough { 400 } else { 70 };
         for d in 0..docs {
-            let nlines = rng.range(2, if d % 3 == 0 { 8 } else { 4 });
+            // every 7th document is ONE line (control: neither cause of the known finding applies there, so a
+            // stale column token in such a history is reported as a violation, not as the known finding)
+            let one_line = d % 7 == 6;
+            let nlines = if one_line { 1 } else { rng.range(2, if d % 3 == 0 { 8 } else { 4 }) };
             let mut text: Vec<u8> = Vec::new();
             for l in 0..nlines {
                 let len = match rng.below(4) {
@@ -792,7 +795,7 @@ fn main() {
                         _ => b'x',
                     });
                 }
-                if l + 1 < nlines || rng.chance(1, 3) {
+                if l + 1 < nlines || (!one_line && rng.chance(1, 3)) {
                     text.push(b'\n');
                 }
             }
@@ -805,7 +808,7 @@ fn main() {
                     let n = cur.len();
                     let nls: Vec<usize> = (0..n).filter(|&i| cur[i] == b'\n').collect();
                     let small_ins = |rng: &mut Rng| -> Vec<u8> { rng.pick(&[&b""[..], &b""[..], &b" "[..], &b"x"[..], &b"xx"[..], &b"x x"[..]]).to_vec() };
-                    let te = match rng.below(6) {
+                    let te = match if one_line { 3 + rng.below(3) } else { rng.below(6) } {
                         // JOIN: a range that contains a line break is deleted or replaced by line-break-free text
                         0 | 1 if !nls.is_empty() => {
                             let nl = *rng.pick(&nls);
